@@ -17,7 +17,7 @@ WITNESS = {
     "blockwriter": {"target": "src/receiver/blockwriter.rs", "src": "units/blockwriter/witness.rs"},
     "decoders": {"target": "src/fec/nocode.rs", "src": "units/decoders/witness.rs"},
     "receiver": {"target": "src/receiver/receiver.rs", "src": "units/receiver/witness.rs"},
-    "multireceiver": {"target": "src/receiver/multireceiver.rs", "src": "units/multireceiver/witness.rs"},
+    "multireceiver": {"target": "src/receiver/multireceiver.rs", "src": "units/multireceiver/witness.rs", "always": True},
     "fdtsched": {"target": "src/sender/fdt.rs", "src": "units/fdtsched/witness.rs"},
     "sendsched": {"target": "src/sender/sendersession.rs", "src": "units/sendsched/witness.rs"},
     "filedesc": {"target": "src/sender/filedesc.rs", "src": "units/filedesc/witness.rs"},
@@ -150,7 +150,7 @@ PROPS = {
         "not_covered": ["decimal TOI string in the FDT XML", "termination of the allocation loop", "Send/Sync (rustc auto traits)"],
     },
     "C17": {
-        "level": "proof", "verus": U("objrecv", "receiver"), "kani": [], "structural": [],
+        "level": "proof", "verus": U("objrecv", "receiver", "multireceiver"), "kani": [], "structural": [],
         "technique": "Verus accounting invariants (ghost sums over the packet cache and the window of block decoders)",
         "claim": "cache_size equals the cached bytes and the cache refuses beyond the limit; a block is allocated only within the limit or among the first two; the window of block decoders grows by a bounded amount per packet; counters never under-count; terminal operations release blocks and cache; the error list respects its configured length; only a packet of the object refreshes its activity clock; cleanup releases stalled objects, unfinished FDT instances and idle sessions",
         "not_covered": ["allocations inside FEC decoders and quick-xml", "fdt_current (literal bound 10)", "real heap bytes"],
